@@ -118,3 +118,66 @@ func (p *Prog) StoresToFieldDeep(fn *ssa.Function, base ssa.Value, field string,
 	}
 	return out
 }
+
+// ForwardLoadThroughCall resolves a load of x.f to what a module helper,
+// called with x before the load, stored into the field: the closest call
+// site dominating the load whose callee stores to f of the matching parameter
+// on every path to its exit. It returns the stored values (in the callee)
+// and the callee.
+func (p *Prog) ForwardLoadThroughCall(load ssa.Value) ([]ssa.Value, *ssa.Function, bool) {
+	u, isLoad := load.(*ssa.UnOp)
+	if !isLoad || u.Op != token.MUL {
+		return nil, nil, false
+	}
+	fa, isFA := u.X.(*ssa.FieldAddr)
+	if !isFA {
+		return nil, nil, false
+	}
+	field := fieldName(fa.X.Type(), fa.Field)
+	fn := u.Parent()
+	var best *ssa.Call
+	var bestCallee *ssa.Function
+	var bestIdx int
+	EachInstr(fn, func(in ssa.Instruction) {
+		call, ok := in.(*ssa.Call)
+		if !ok || !Dominates(call, u) {
+			return
+		}
+		callee := call.Call.StaticCallee()
+		if callee == nil || callee.Blocks == nil || !InModule(callee) {
+			return
+		}
+		for i, a := range call.Call.Args {
+			if i >= len(callee.Params) || !(SameValue(a, fa.X) || Resolve(a) == Resolve(fa.X)) {
+				continue
+			}
+			sts := StoresToField(callee, callee.Params[i], field)
+			if len(sts) == 0 {
+				continue
+			}
+			if best == nil || Dominates(best, call) {
+				best, bestCallee, bestIdx = call, callee, i
+			}
+		}
+	})
+	if best == nil {
+		return nil, nil, false
+	}
+	var vals []ssa.Value
+	for _, st := range StoresToField(bestCallee, bestCallee.Params[bestIdx], field) {
+		vals = append(vals, st.Val)
+	}
+	// the store happens on every way out of the helper
+	for _, ret := range Returns(bestCallee) {
+		dom := false
+		for _, st := range StoresToField(bestCallee, bestCallee.Params[bestIdx], field) {
+			if Dominates(st, ret) {
+				dom = true
+			}
+		}
+		if !dom {
+			return nil, nil, false
+		}
+	}
+	return vals, bestCallee, true
+}
